@@ -33,6 +33,8 @@ def render(grid):
     trail = d.get("trail") or [""]
     pre = d.get("pre") or [0]
     post = d.get("post") or [0]
+    kspad = d.get("kspad") or [0]  # minimum digit count of keysound indices: "[07]" is keysound 7
+    ksno = 0
     rowno = 0
     measno = 0
     player_texts = []
@@ -41,8 +43,13 @@ def render(grid):
         for meas in measures:
             R = meas["rows"]
             table = {}
-            for r, c, t, ks in meas["cells"]:
-                table[(r, c)] = t + (f"[{ks}]" if ks is not None else "")
+            for r, c, t, ks in sorted(meas["cells"], key=lambda x: (x[0], x[1])):
+                if ks is not None:
+                    w = kspad[ksno % len(kspad)]
+                    ksno += 1
+                    table[(r, c)] = t + f"[{ks:0{w}d}]"
+                else:
+                    table[(r, c)] = t
             lines = []
             for r in range(R):
                 body = "".join(table.get((r, c), "0") for c in range(cols))
@@ -71,6 +78,7 @@ def decorated(grid):
         or any(d.get("pre") or [])
         or any(d.get("post") or [])
         or not d.get("final", True)
+        or any(d.get("kspad") or [])
     )
 
 
@@ -85,12 +93,13 @@ deco_strategy = st.fixed_dictionaries(
         "pre": st.lists(st.integers(0, 2), min_size=1, max_size=3),
         "post": st.lists(st.integers(0, 2), min_size=1, max_size=3),
         "final": st.booleans(),
+        "kspad": st.sampled_from([[0], [0], [0], [2, 0], [3], [0, 4, 1]]),
     }
 )
-plain_deco = st.just({"eol": "\n", "lead": [""], "trail": [""], "pre": [0], "post": [0], "final": True})
+plain_deco = st.just({"eol": "\n", "lead": [""], "trail": [""], "pre": [0], "post": [0], "final": True, "kspad": [0]})
 
 keysound = st.one_of(st.none(), st.none(), st.integers(0, 9999), st.sampled_from([0, 7, 10, 255]))
-rows_strategy = st.one_of(st.sampled_from(ROWS_COMMON), st.sampled_from(ROWS_COMMON), st.integers(1, 200))
+rows_strategy = st.one_of(st.sampled_from(ROWS_COMMON), st.sampled_from(ROWS_COMMON), st.integers(1, 200), st.sampled_from([384, 768, 1000, 250]))
 
 
 @st.composite
